@@ -898,6 +898,12 @@ class EvRunner:
                     res.known.setdefault(fid, []).append({'scenario': name, 'probe': pf})
                 elif kind == 'drift':
                     res.drift.append({'scenario': name, 'probe': pf, 'real': reals[i][:200], 'impl_model': impls[i][:200]})
+                elif kind == 'violation' and reals[i] in ('X:RecursionError', 'X:RuntimeError') and \
+                        max([int(x) for x in re.findall(r'chain-?(\d+)', scn.get('shape', ''))] or [0]) > 100:
+                    # the interpreter's own recursion limit on a chain of more than 100 formula cells: how deep a
+                    # chain the library can follow is a CAPACITY (a refactoring that adds a stack frame per level lowers
+                    # it), not something the statement fixes; a WRONG VALUE at any depth stays a violation
+                    res.count('capacity:recursion-limit-on-a-deep-chain')
                 elif kind == 'violation':
                     small = self.shrink(scn, i % n)
                     res.violations.append({
